@@ -1,13 +1,13 @@
 package pg
 
 import (
-	"net/http"
 	"bufio"
 	"encoding/json"
 	"fmt"
 	"io/ioutil"
 	"log"
 	"math/rand"
+	"net/http"
 	"os"
 	"sort"
 	"strings"
